@@ -170,6 +170,8 @@ class G:
         self.ops.append("fromiter %d %s" % (v, self.iterscript(n))); self.len[v] = n; self.cap[v] = n; self.fresh += n + 3
     def o_macrep(self):
         v = self.free_vec(); n = self.r.randint(0, 5)
+        if self.f.get("panic") and self.r.random() < 0.5:
+            self.want_cp = getattr(self, "want_cp", []) + [self.fresh]     # the element expression's value: its clone panics
         self.ops.append("macrep %d %d" % (v, n)); self.len[v] = n; self.cap[v] = n; self.fresh += n + 1
     def o_maclist(self):
         v = self.free_vec()
@@ -294,7 +296,9 @@ def make(rng, flavor, hid, cls=None, nops=None, start=None):
     hdr = "H %s cls=%s" % (hid, cls)
     if flavor.get("prof"):
         hdr += " prof=" + flavor["prof"]
-    if flavor.get("panic") and cls in TRACKED and rng.random() < 0.5 and g.fresh > 0:
+    if flavor.get("panic") and cls in TRACKED and getattr(g, "want_cp", None) and rng.random() < 0.7:
+        hdr += " cp=" + ",".join(map(str, sorted(set(g.want_cp))))
+    elif flavor.get("panic") and cls in TRACKED and rng.random() < 0.5 and g.fresh > 0:
         ids = sorted(set(rng.randrange(g.fresh) for _ in range(rng.choice([1, 1, 2]))))
         if rng.random() < 0.6:
             hdr += " dp=" + ",".join(map(str, ids))
@@ -338,7 +342,9 @@ def iter_scenario(rng, flavor, hid):
                 sc = "".join(rng.choice("SSN") for _ in range(r + rng.randint(1, 3)))
             else:
                 sc = "S" * r
-            if flavor.get("panic") and sc and rng.random() < 0.3:
+            if flavor.get("illbehaved") and sc and rng.random() < 0.5:
+                sc = "h%d:%s" % (rng.choice([0, 1, 2, 3, 7, len(sc) + 2, 1000]), sc)
+            if flavor.get("panic") and sc and ":" not in sc and rng.random() < 0.3:
                 k = rng.randrange(len(sc)); sc = sc[:k] + "P" + sc[k + 1:]
             ops.append("splice 0 0 %s %s %s" % (bs, be, sc or "-"))
             fresh += r + 3
@@ -390,7 +396,7 @@ FLAVORS = {
     "C01": {"iter_share": 0.4, "malformed": 0.06},
     "C02": {"iter_share": 0.4, "malformed": 0.04, "classes": TRACKED},
     "C03": {"iter_share": 0.2, "malformed": 0.04, "weights": {"shrinkfit": 3, "shrinkto": 2, "reserve": 2, "reservex": 2, "clear": 3, "splice": 1.5, "splitoff": 2}},
-    "C04": {"iter_share": 0.5, "panic": True, "classes": TRACKED, "malformed": 0.05},
+    "C04": {"iter_share": 0.45, "panic": True, "classes": TRACKED, "malformed": 0.05, "weights": {"clear": 5, "trunc": 2.5, "macrep": 4, "resize": 2, "extslice": 1.5, "clone": 2, "fromslice": 2, "extwithin": 2, "retain": 2, "dedupby": 2}},
     "C05": {"iter_share": 0.6, "forget": True, "classes": TRACKED, "malformed": 0.03, "weights": {"drain": 2, "splice": 2, "dfilter": 2, "intoiter": 2, "iterstep": 1.5, "iterend": 2}},
     "C06": {"iter_share": 0.2, "start": "never", "maxops": 6, "malformed": 0.05},
     "C07": {"iter_share": 0.15, "malformed": 0.03, "weights": {"reserve": 3, "reservex": 3, "shrinkfit": 2, "shrinkto": 3, "spare": 3, "splitspare": 3}},
@@ -432,6 +438,33 @@ def sizes_history(rng, hid):
     ops += ["push 0", "pop 0"]
     return "H %s cls=%s prof=dr child=1 :: %s" % (hid, cls, " ; ".join(ops))
 
+SENTINEL_MAKERS = ["new 0", "default 0", "mac0 0", "wcap 0 0", "fromslice 0 0", "frommut 0 0", "fromiter 0 -", "macrep 0 0",
+                   "new 9 ; clone 9 0", "new 9 ; drainvec 9 0", "wcap 9 3 ; push 9 ; drainvec 9 8 ; drop 8 ; drainvec 9 0", "new 9 ; splitoff 9 0 0"]
+PARTNERS = [None, "new 1", "wcap 1 4", "wcap 1 2 ; shrinkfit 1", "wcap 1 3 ; push 1 ; push 1", "wcap 1 2 ; push 1 ; clear 1", "walign 1 0 64"]
+SENTINEL_OPS = ["push 0", "pop 0", "insert 0 0", "insert 0 1", "remove 0 0", "swaprm 0 0", "trunc 0 0", "trunc 0 3", "clear 0",
+                "resize 0 0", "resize 0 2", "resizewith 0 0 -", "resizewith 0 2 -", "extslice 0 0", "extslice 0 2", "extend 0 -", "extend 0 SS",
+                "extwithin 0 u u", "extwithin 0 i0 e0", "extwithin 0 i0 e1", "append 0 1", "append 1 0", "dedup 0", "dedupby 0 T", "dedupkey 0",
+                "retain 0 T", "rmitem 0 1", "reserve 0 0", "reserve 0 1", "reservex 0 0", "reservex 0 2", "shrinkfit 0", "shrinkto 0 0",
+                "shrinkto 0 1", "spare 0", "splitspare 0", "index 0 0", "slice 0 u u", "slice 0 i0 e0", "slice 0 i0 e1", "cmp 0 1", "cmp 1 0",
+                "clone 0 2", "drainvec 0 2", "splitoff 0 2 0", "splitoff 0 2 1", "leak 0", "drop 0", "rawrt 0 1",
+                "drain 0 0 u u ; next 0 ; nextb 0 ; hint 0 ; dropit 0", "drain 0 0 u u ; nextb 0 ; next 0 ; forget 0", "drain 0 0 i0 e0 ; nextb 0 ; dropit 0",
+                "drain 0 0 i0 e1", "splice 0 0 u u - ; nextb 0 ; next 0 ; dropit 0", "splice 0 0 u u SSS ; next 0 ; nextb 0 ; hint 0 ; dropit 0",
+                "splice 0 0 i0 e0 SS ; dropit 0", "splice 0 0 u u SSSSS ; forget 0", "dfilter 0 0 TF ; next 0 ; hint 0 ; dropit 0", "dfilter 0 0 - ; forget 0",
+                "intoiter 0 0 ; next 0 ; nextb 0 ; hint 0 ; asslice 0 ; cloneit 0 1 ; next 1 ; dropit 1 ; dropit 0", "intoiter 0 0 ; forget 0",
+                "intoiter 0 0 ; cloneit 0 1 ; dropit 0 ; nextb 1 ; asslice 1 ; dropit 1"]
+
+def sentinel_scenario(rng, hid, k=None):
+    """C06: one entry point (with its iterator methods) on a never-allocated vector obtained in one of the
+    documented ways, next to a partner vector in some storage state, followed by a probe"""
+    n = len(SENTINEL_MAKERS) * len(SENTINEL_OPS)
+    k = rng.randrange(n) if k is None else k % n
+    mk = SENTINEL_MAKERS[k % len(SENTINEL_MAKERS)]
+    op = SENTINEL_OPS[(k // len(SENTINEL_MAKERS)) % len(SENTINEL_OPS)]
+    partner = rng.choice(PARTNERS)
+    cls = rng.choice(CLASSES)
+    ops = [mk] + ([partner] if partner else []) + [op] + rng.sample(["push 0", "pop 0", "reserve 0 1", "clone 0 3", "drop 0", "cmp 0 1", "extslice 0 1"], rng.randint(0, 3))
+    return "H %s cls=%s prof=dr :: %s" % (hid, cls, " ; ".join(ops))
+
 def seed_for(ctx, salt=""):
     return (ctx.seed * 1000003 + zlib.crc32((ctx.pid + salt).encode())) & 0xffffffff
 
@@ -444,6 +477,16 @@ def generate(ctx, P):
     if pid == "C09":
         return [sizes_history(rng, "z%d" % k) for k in range(n)]
     fl = FLAVORS[pid]
+    if pid == "C06":
+        out = []
+        total = len(SENTINEL_MAKERS) * len(SENTINEL_OPS)
+        m = n // 2 if ctx.tier == "quick" else total * 3
+        start = rng.randrange(total)
+        for k in range(m):
+            out.append(sentinel_scenario(rng, "n%d" % k, (start + k * 7) if ctx.tier == "quick" else k))
+        for k in range(n - n // 2):
+            out.append(make(rng, fl, "g%d" % k))
+        return out
     if pid == "C18":
         out = []
         for k in range(n // 3):
